@@ -6,12 +6,7 @@ const { withModule, errStr } = require('../lib/evalmod');
 const { canonValue, diff, diffClass, stable } = require('../lib/canon');
 const E = require('../lib/espace');
 
-// T alphabet: [name, source spelling, decoded]
-const SYM = [
-  ['a', 'a', 'a'], ['SP', ' ', ' '], ['LF', '\n', '\n'], ['TAB', '\t', '\t'], ['CR', '\r', '\r'],
-  ['CRLF', '\r\n', '\r\n'], ['NBSP', ' ', ' '], ['&nbsp;', '&nbsp;', ' '],
-  ['EM', ' ', ' '], ['b', 'b', 'b'], ['&amp;', '&amp;', '&'],
-];
+const { SYM } = require('../lib/tsyms');
 const L_HOSTS = ['div', 'frag', 'Fragment', 'FragmentI', 'KeepAlive', 'iiconPat'];
 const L_CHILDREN = Object.keys(E.CHILDREN);
 
